@@ -1,6 +1,195 @@
 // Contract harnesses for ntp-proto/src/cookiestash.rs (child module: sees private items).
-#![allow(unused_imports)]
+// Property C13: cookies are handed out once, oldest first; at most eight are kept (the newest);
+// gap() == number of missing cookies.
+//
+// Abstract view of a stash: the queue  view = [cookies[(read+i) % 8] | i < valid].
+// Type invariant wf: read < 8 && valid <= 8 (established by Default, preserved by store/get --
+// checked below). Every harness quantifies over ALL (read, valid) satisfying wf and over tagged
+// cookies (one arbitrary byte, or empty, per slot -- the code never looks inside a cookie).
+#![allow(unused_imports, dead_code)]
 use super::*;
+use crate::verif_common::{FromParts, Parts};
+
+/// (slots, read, valid)
+impl FromParts<([Vec<u8>; MAX_COOKIES], usize, usize)> for CookieStash {
+    fn from_parts(p: ([Vec<u8>; MAX_COOKIES], usize, usize)) -> Self {
+        CookieStash { cookies: p.0, read: p.1, valid: p.2 }
+    }
+}
+impl Parts<(usize, usize)> for CookieStash {
+    fn parts(&self) -> (usize, usize) {
+        (self.read, self.valid)
+    }
+}
+
+fn tagged(t: u8, empty: bool) -> Vec<u8> {
+    if empty { Vec::new() } else { vec![t] }
+}
+/// arbitrary well-formed stash; returns the tags (None = empty vector) per physical slot
+fn any_stash() -> (CookieStash, [Option<u8>; 8]) {
+    let t: [u8; 8] = kani::any();
+    let e: [bool; 8] = kani::any();
+    let read: usize = kani::any();
+    let valid: usize = kani::any();
+    kani::assume(read < 8 && valid <= 8);
+    let cookies = [
+        tagged(t[0], e[0]), tagged(t[1], e[1]), tagged(t[2], e[2]), tagged(t[3], e[3]),
+        tagged(t[4], e[4]), tagged(t[5], e[5]), tagged(t[6], e[6]), tagged(t[7], e[7]),
+    ];
+    let mut tags = [None; 8];
+    let mut i = 0;
+    while i < 8 {
+        tags[i] = if e[i] { None } else { Some(t[i]) };
+        i += 1;
+    }
+    (CookieStash { cookies, read, valid }, tags)
+}
+fn slot_tag(s: &CookieStash, i: usize) -> Option<u8> {
+    let c = &s.cookies[i];
+    if c.is_empty() { None } else { Some(c[0]) }
+}
+/// i-th element of the abstract queue
+fn view(s: &CookieStash, i: usize) -> Option<u8> {
+    slot_tag(s, (s.read + i) % 8)
+}
+
+#[kani::proof]
+#[kani::unwind(10)]
+fn c13_p_default_is_empty_and_wf() {
+    let s = CookieStash::default();
+    assert!(s.read < 8 && s.valid == 0 && s.len() == 0 && s.is_empty() && s.gap() == 8);
+    kani::cover!(true, "reachable");
+}
+
+/// store: view' == (view ++ [c]) restricted to its last 8 elements; wf preserved; never panics
+#[kani::proof]
+#[kani::unwind(10)]
+fn c13_p_store_appends_keeps_newest_eight() {
+    let (mut s, tags) = any_stash();
+    let (read, valid) = (s.read, s.valid);
+    let c: u8 = kani::any();
+    s.store(vec![c]);
+    assert!(s.read < 8 && s.valid <= 8);
+    let n_after = if valid < 8 { valid + 1 } else { 8 };
+    assert!(s.len() == n_after);
+    let dropped = if valid < 8 { 0 } else { 1 }; // the oldest one is dropped when full
+    let mut i = 0;
+    while i < 8 {
+        if i < n_after {
+            let j = i + dropped; // index in (old view ++ [c])
+            let want = if j < valid { tags[(read + j) % 8] } else { Some(c) };
+            assert!(view(&s, i) == want);
+            // stored cookies are kept whole (length 1 here), not truncated or merged
+            assert!(want.is_none() || s.cookies[(s.read + i) % 8].len() == 1);
+        }
+        i += 1;
+    }
+    assert!(s.gap() as usize == 8 - n_after);
+    kani::cover!(valid == 8 && read == 5, "overflow while wrapped reachable");
+    kani::cover!(valid == 0, "empty reachable");
+}
+
+/// get: returns the oldest element, view' == view[1..], the slot is emptied (a cookie can be
+/// handed out only once); None iff empty, and then nothing changes; wf preserved
+#[kani::proof]
+#[kani::unwind(10)]
+fn c13_p_get_oldest_once() {
+    let (mut s, tags) = any_stash();
+    let (read, valid) = (s.read, s.valid);
+    let r = s.get();
+    assert!(s.read < 8 && s.valid <= 8);
+    if valid == 0 {
+        assert!(r.is_none());
+        assert!(s.read == read && s.valid == 0);
+        let mut i = 0;
+        while i < 8 {
+            assert!(slot_tag(&s, i) == tags[i]);
+            i += 1;
+        }
+    } else {
+        let got = r.unwrap();
+        let got_tag = if got.is_empty() { None } else { Some(got[0]) };
+        assert!(got_tag == tags[read]);
+        assert!(got.len() <= 1);
+        assert!(s.len() == valid - 1);
+        // the handed-out cookie is no longer anywhere in the window, its slot is empty
+        assert!(s.cookies[read].is_empty());
+        let mut i = 0;
+        while i < 8 {
+            if i < valid - 1 {
+                assert!(view(&s, i) == tags[(read + i + 1) % 8]);
+            }
+            i += 1;
+        }
+    }
+    assert!(s.gap() as usize == 8 - s.len());
+    assert!(s.is_empty() == (s.len() == 0));
+    kani::cover!(valid == 8 && read == 7, "full wrapped reachable");
+    kani::cover!(valid == 0, "empty reachable");
+}
+
+/// gap / len / is_empty over all well-formed index states
+#[kani::proof]
+#[kani::unwind(10)]
+fn c13_p_gap_len() {
+    let (s, _) = any_stash();
+    assert!(s.len() == s.valid && s.len() <= 8);
+    assert!(s.gap() as usize + s.len() == 8);
+    assert!(s.is_empty() == (s.valid == 0));
+    kani::cover!(s.gap() == 0, "full reachable");
+}
+
+/// two-step consequence used by C13's history argument: after get() the same cookie is not
+/// returned again by the following get(), whatever is stored in between (tags distinct)
+#[kani::proof]
+#[kani::unwind(10)]
+fn c13_p_no_cookie_twice() {
+    let (mut s, tags) = any_stash();
+    kani::assume(s.valid >= 1);
+    // all cookies in the window non-empty and pairwise distinct, the new one distinct as well
+    let c: u8 = kani::any();
+    let mut i = 0;
+    while i < 8 {
+        if i < s.valid {
+            let a = tags[(s.read + i) % 8];
+            kani::assume(a.is_some() && a != Some(c));
+            let mut j = 0;
+            while j < i {
+                kani::assume(tags[(s.read + j) % 8] != a);
+                j += 1;
+            }
+        }
+        i += 1;
+    }
+    let first = s.get().unwrap();
+    if kani::any() {
+        s.store(vec![c]);
+    }
+    let mut k = 0;
+    while k < 9 {
+        match s.get() {
+            Some(x) => assert!(x != first),
+            None => {}
+        }
+        k += 1;
+    }
+    assert!(s.is_empty());
+    kani::cover!(true, "reachable");
+}
+
+#[kani::proof]
+#[kani::unwind(10)]
+fn c13_canary_lifo() {
+    // false: claims the newest cookie is handed out first
+    let (mut s, tags) = any_stash();
+    kani::assume(s.valid >= 2);
+    let newest = tags[(s.read + s.valid - 1) % 8];
+    let oldest = tags[s.read];
+    kani::assume(newest != oldest);
+    let got = s.get().unwrap();
+    let got_tag = if got.is_empty() { None } else { Some(got[0]) };
+    assert!(got_tag == newest);
+}
 
 #[cfg(all(kani, test))]
 mod replay {
